@@ -152,6 +152,48 @@ class Tr:
 
     def run_ctor(self, body, env, k, fname):
         for s in body:
+            if isinstance(s, ast.Expr) and isinstance(s.value, ast.Call) and isinstance(s.value.func, ast.Attribute) \
+                    and isinstance(s.value.func.value, ast.Name) and s.value.func.value.id == "self" and not s.value.args and not s.value.keywords:
+                # the constructor delegates part of its work to a private method of the same class: run it in place
+                kk_, fm_ = self.mod.find(self.cls, s.value.func.attr)
+                if fm_ is not None and not fm_.decorator_list and self.depth < 6:
+                    self.depth += 1
+                    try:
+                        self.run_ctor(fm_.body, {}, kk_, fm_.name)
+                    finally:
+                        self.depth -= 1
+                continue
+            if isinstance(s, ast.Expr) and isinstance(s.value, ast.Call) and ast.unparse(s.value.func) == "self.params.update" and len(s.value.args) == 1 \
+                    and not s.value.keywords:
+                # `self.params.update({...})` with statically known keys is a sequence of `self.params[key] = value`
+                try:
+                    arg = s.value.args[0]
+                    pairs_ = None
+                    if isinstance(arg, ast.Dict) and all(isinstance(kx, ast.Constant) and isinstance(kx.value, str) for kx in arg.keys):
+                        pairs_ = [(kx.value, self.expr(vx, env, k)) for kx, vx in zip(arg.keys, arg.values)]
+                    elif isinstance(arg, ast.DictComp) and len(arg.generators) == 1 and not arg.generators[0].ifs and isinstance(arg.generators[0].target, ast.Name) \
+                            and isinstance(arg.generators[0].iter, (ast.Tuple, ast.List)) and all(isinstance(x, ast.Constant) for x in arg.generators[0].iter.elts):
+                        pairs_ = []
+                        for c_ in arg.generators[0].iter.elts:
+                            env2_ = dict(env); env2_[arg.generators[0].target.id] = self.expr(c_, env, k)
+                            kt_ = self.expr(arg.key, env2_, k)
+                            if kt_[0] != "str":
+                                raise Unsupported("non-constant key")
+                            pairs_.append((kt_[1], self.expr(arg.value, env2_, k)))
+                    if pairs_ is not None:
+                        for kx, vx in pairs_:
+                            self.pover[kx] = vx
+                        continue
+                except Unsupported as e:
+                    self.notes.append(f"{k}.{fname}: params.update opaque ({e})")
+                continue
+            if isinstance(s, ast.For) and isinstance(s.target, ast.Name) and isinstance(s.iter, (ast.Tuple, ast.List)) and all(isinstance(x, ast.Constant) for x in s.iter.elts) \
+                    and not s.orelse:
+                # a loop over a literal tuple of names is unrolled
+                for c_ in s.iter.elts:
+                    env[s.target.id] = self.expr(c_, env, k)
+                    self.run_ctor(s.body, env, k, fname)
+                continue
             if isinstance(s, ast.Expr):
                 continue
             if isinstance(s, ast.Assign) and len(s.targets) == 1:
@@ -174,6 +216,13 @@ class Tr:
                     env[t.id] = v
                 elif isinstance(t, ast.Subscript) and ast.unparse(t.value) == "self.params" and isinstance(t.slice, ast.Constant):
                     self.pover[t.slice.value] = v
+                elif isinstance(t, ast.Subscript) and ast.unparse(t.value) == "self.params":
+                    try:
+                        kt_ = self.expr(t.slice, env, k)
+                        if kt_[0] == "str":
+                            self.pover[kt_[1]] = v
+                    except Unsupported:
+                        pass
             elif isinstance(s, ast.If):
                 self.merge_if(s, env, k, fname)
             elif isinstance(s, (ast.Raise, ast.Assert, ast.Pass)):
@@ -335,6 +384,8 @@ class Tr:
                 return ("cmp", "gt" if op is ast.Is else "le", flag, ("lit", 5, -1))
             if op in CMP:
                 return ("cmp", CMP[op], self.expr(l, env, k), self.expr(r, env, k))
+        if isinstance(e, ast.Name) and e.id in env and env[e.id][0] == "condterm":
+            return env[e.id][1]
         if isinstance(e, ast.BoolOp):
             return (("and" if isinstance(e.op, ast.And) else "or"),) + tuple(self.cond(v, env, k) for v in e.values)
         if isinstance(e, ast.UnaryOp) and isinstance(e.op, ast.Not):
@@ -436,6 +487,8 @@ class Tr:
             return ("var", "py:" + src)
 
     def expr0(self, e, env, k):
+        if isinstance(e, (ast.Compare, ast.BoolOp)) or (isinstance(e, ast.UnaryOp) and isinstance(e.op, ast.Not)):
+            return ("condterm", self.cond(e, env, k))          # a boolean array held in a local (mask); only usable as a condition
         if isinstance(e, ast.Constant):
             if isinstance(e.value, (int, float)) and not isinstance(e.value, bool):
                 return lit(e.value)
@@ -567,6 +620,13 @@ class Tr:
                 return (op_, self.expr(e.args[0], env, k), self.expr(e.args[1], env, k))
             if f.startswith("math.") and f[5:] in UFUNC and len(e.args) == 1 and not e.keywords:
                 return (UFUNC[f[5:]], self.expr(e.args[0], env, k))
+            if f == "np.select" and len(e.args) >= 2 and isinstance(e.args[0], (ast.List, ast.Tuple)) and isinstance(e.args[1], (ast.List, ast.Tuple)) \
+                    and len(e.args[0].elts) == len(e.args[1].elts):
+                dflt = e.args[2] if len(e.args) > 2 else next((kw.value for kw in e.keywords if kw.arg == "default"), ast.Constant(value=0))
+                out_ = self.expr(dflt, env, k)
+                for c_, v_ in reversed(list(zip(e.args[0].elts, e.args[1].elts))):
+                    out_ = ("ite", self.cond(c_, env, k), self.expr(v_, env, k), out_)      # first matching condition wins
+                return out_
             if f == "np.where" and len(e.args) == 3:
                 return ("ite", self.cond(e.args[0], env, k), self.expr(e.args[1], env, k), self.expr(e.args[2], env, k))
             if f == "np.arange" and len(e.args) == 3 and not e.keywords:
@@ -935,15 +995,41 @@ def wiring():
             if isinstance(imp, ast.ImportFrom) and imp.level >= 1:
                 for a in imp.names:
                     pkgmods.add(a.asname or a.name)
-        for fn in mod.classes[cls].body:
+        # module-level helpers that a method of this class calls with `self` as an argument are read as helper methods of the class
+        # (the parameter standing for the framework object renamed to `self`)
+        import copy as _copy0
+        adopted = []
+        for fn0 in mod.classes[cls].body:
+            if not isinstance(fn0, ast.FunctionDef):
+                continue
+            for c0 in ast.walk(fn0):
+                if isinstance(c0, ast.Call) and isinstance(c0.func, ast.Name) and c0.func.id in mod.funcs:
+                    g0 = mod.funcs[c0.func.id]
+                    pname = None
+                    for i0, a0 in enumerate(c0.args):
+                        if isinstance(a0, ast.Name) and a0.id == "self" and i0 < len(g0.args.args):
+                            pname = g0.args.args[i0].arg
+                    for kw0 in c0.keywords:
+                        if isinstance(kw0.value, ast.Name) and kw0.value.id == "self":
+                            pname = kw0.arg
+                    if pname and not any(x.name == g0.name for x in adopted):
+                        g1 = _copy0.deepcopy(g0)
+                        for n0 in ast.walk(g1):
+                            if isinstance(n0, ast.Name) and n0.id == pname:
+                                n0.id = "self"
+                        g1.args.args = [a for a in g1.args.args if a.arg != pname]
+                        g1.decorator_list = []
+                        adopted.append(g1)
+        for fn in list(mod.classes[cls].body) + adopted:
             if not isinstance(fn, ast.FunctionDef):
                 continue
             cached = any(ast.unparse(d).split(".")[-1] == "cached_quantity" for d in fn.decorator_list)
-            if not cached and fn.decorator_list:
-                continue            # parameters, properties, staticmethods: not part of the data flow between quantities
+            if not cached and fn.decorator_list and not any(ast.unparse(d) == "staticmethod" for d in fn.decorator_list):
+                continue            # parameters, properties: not part of the data flow between quantities
             if not cached and fn.name in ("__init__", "validate", "update", "clone"):
                 continue
             k = 0
+            site0 = f"{cls}.{fn.name}" if cached else f"{cls}.<helper>"      # helpers are interchangeable places: keyed by class only
             # single-assignment locals are written out in the recorded argument texts (so `mask = dndm > 0; f(m[mask])` reads `f(m[dndm > 0])`)
             cnt_ = {}
             for a_ in ast.walk(fn):
@@ -993,7 +1079,7 @@ def wiring():
                 if isinstance(n.func, ast.Attribute) and isinstance(n.func.value, ast.Name) and n.func.attr in ("update", "clone") and not n.args \
                         and ((n.func.value.id != "self") or (n.func.attr == "clone" and not cached)):
                     # a derived framework object built inside a helper (e.g. the high-mass extension of `_gtm`): which parameters it is given
-                    rows.append((f"{cls}.{fn.name}" + (f"#{k}" if k else ""), [("callee", "<derived object>.update")] + sorted(((kw.arg or "**"), src_(kw.value)) for kw in n.keywords)))
+                    rows.append((site0 + (f"#{k}" if k else ""), [("callee", "<derived object>.update")] + sorted(((kw.arg or "**"), src_(kw.value)) for kw in n.keywords)))
                     k += 1
                     continue
                 if isinstance(n.func, ast.Name) and n.func.id in funcs:
@@ -1001,7 +1087,7 @@ def wiring():
                     name, params = funcs[n.func.id]
                     bound = [(params[i] if i < len(params) else f"#{i}", src_(a)) for i, a in enumerate(n.args)]
                     bound += [((kw.arg or "**"), src_(kw.value)) for kw in n.keywords]
-                    rows.append((f"{cls}.{fn.name}" + (f"#{k}" if k else ""), [("callee", name)] + sorted(bound)))
+                    rows.append((site0 + (f"#{k}" if k else ""), [("callee", name)] + sorted(bound)))
                     k += 1
                     continue
                 if not isinstance(n.func, ast.Attribute):
@@ -1014,13 +1100,13 @@ def wiring():
                         args = [(f"#{i}", src_(a)) for i, a in enumerate(n.args)] + sorted(((kw.arg or "**"), src_(kw.value)) for kw in n.keywords)
                     finally:
                         full_[0] = False
-                    rows.append((f"{cls}.{fn.name}" + (f"#{k}" if k else ""), [("callee", callee)] + args))
+                    rows.append((site0 + (f"#{k}" if k else ""), [("callee", callee)] + args))
                     k += 1
                     continue
                 if re.fullmatch(r"self\.[A-Za-z_]+_model(\.clone)?", callee):
                     args = [(f"#{i}", src_(a)) for i, a in enumerate(n.args)]
                     args += sorted(((kw.arg or "**"), src_(kw.value)) for kw in n.keywords)
-                    rows.append((f"{cls}.{fn.name}" + (f"#{k}" if k else ""), [("callee", callee[5:])] + args))
+                    rows.append((site0 + (f"#{k}" if k else ""), [("callee", callee[5:])] + args))
                     k += 1
     # attributes a component's constructor derives from its arguments (inputs of the generated terms): what they are made of
     for rel, cls in [("alternatives/wdm.py", "WDM")]:
@@ -1079,6 +1165,7 @@ def guards():
         return None
     rows = []
     locals_stack = []
+    localnames_stack = []
 
     def inline_(e_, depth=0):
         import copy as _copy
@@ -1118,9 +1205,11 @@ def guards():
                     argn = {x.arg for x in ch.args.args}
                     locals_stack.append({a_.targets[0].id: a_.value for a_ in ast.walk(ch) if isinstance(a_, ast.Assign) and len(a_.targets) == 1
                                          and isinstance(a_.targets[0], ast.Name) and cnt.get(a_.targets[0].id) == 1 and a_.targets[0].id not in argn
-                                         and not isinstance(a_.value, ast.Call)})
+                                         and (not isinstance(a_.value, ast.Call) or ast.unparse(a_.value.func).startswith("self."))})
+                    localnames_stack.append(set(cnt) - argn)
                     visit(ch, stack)
                     locals_stack.pop()
+                    localnames_stack.pop()
                     continue
                 if isinstance(ch, ast.UnaryOp) and isinstance(ch.op, ast.Not) and isinstance(ch.operand, ast.Compare):
                     handle(ch.operand, stack, True)
@@ -1157,9 +1246,21 @@ def guards():
                 opc = type(op)
                 if negated:
                     opc = neg[opc]
+                # a test and its negation describe the same boundary (`x <= c` is `not x > c`): one canonical representative of each pair;
+                # `>` vs `>=` (a moved boundary) still differ
+                opc = {ast.LtE: ast.Gt, ast.GtE: ast.Lt, ast.NotEq: ast.Eq}.get(opc, opc)
                 txt = inline_(l)
                 if re.search(r"len\(|\.size\b|\.shape\b|\.ndim\b", txt):
                     continue          # container-size tests are not thresholds of the physics
+                # what is still phrased in terms of a local variable is written with positional placeholders (names are arbitrary)
+                lnames = localnames_stack[-1] if localnames_stack else set()
+                tree_ = ast.parse(txt, mode="eval")
+                order_ = {}
+                for n_ in ast.walk(tree_):
+                    if isinstance(n_, ast.Name) and n_.id in lnames:
+                        order_.setdefault(n_.id, f"_{len(order_) + 1}")
+                        n_.id = order_[n_.id]
+                txt = ast.unparse(tree_)
                 rows.append((f"{rel}:{'.'.join(stack)}", f"{txt} {sym[opc]} {rn!r}"))
             for sub in items:
                 visit(sub, stack)
